@@ -4,6 +4,7 @@ let () =
     | "c18" -> C18.run_case
     | "reg" -> Reg.run_case
     | "probe" -> Reg.run_probe
+    | "cache" -> Cachedrv.run_case
     | p -> failwith ("unknown property " ^ p) in
   try
     while true do
